@@ -50,6 +50,17 @@ def cases(tier, seed):
                 for crc in ("granted", "not-requested"):
                     out.append({"n": n, "crc": crc, "D": 1 if n <= 22 or tier == "thorough" else 0, "seed": seed,
                                 "buffering": buf, "reads": plan})
+    # length sweep: every length up to two full 127-segment blocks (thorough: four), undisturbed; CRC / size indication /
+    # payload family rotating with the length
+    top = 1800 if tier == "quick" else 3600
+    for n in range(65, top + 1):
+        c = {"n": n, "crc": ("granted", "not-requested", "refused")[n % 3], "D": 0, "seed": seed,
+             "fill": simenv.FILLS[(n // 3) % len(simenv.FILLS)]}
+        if n % 5 == 0:
+            c["nosize"] = True
+        out.append(c)
+    for n in (7100, 10000, 20000):
+        out.append({"n": n, "crc": "granted", "D": 0, "seed": seed})
     big = [888, 889, 890] if tier == "quick" else [888, 889, 890, 1777, 1778, 1779, 10000]
     for n in big:
         for crc in ("granted", "refused"):
@@ -61,7 +72,7 @@ def cases(tier, seed):
 def one(case, ch):
     import canopen
     n = case["n"]
-    data = simenv.pattern(n, case.get("seed", 0))
+    data = simenv.fill(n, case.get("seed", 0), case.get("fill", "pattern"))
     srv = StrictSdoServer(5, crc=case["crc"] != "refused", blk_size_indicated=not case.get("nosize"))
     srv.store[MUX] = data
     srv.expected_mux = struct.pack("<HB", *MUX)
